@@ -254,7 +254,13 @@ def one_roundtrip(rng, res, d, use_gpg):
                  {"op": "pae", "why": "DSSE pre-authentication bytes differ from PAE(type, JSON of the content with sorted members)"})
     path = os.path.join(d, "f.%d" % rng.randrange(10**6))
     md.dump(path)
-    content = json.load(open(path, encoding="utf8"))
+    try:
+        content = json.load(open(path, encoding="utf8"))
+    except ValueError as e:
+        res.evaluations += 1
+        res.fail("oracle", {"op": "roundtrip", "payload": asd, "dsse": dsse, "compact": compact},
+                 {"why": "metadata signed through in-toto and written to disk cannot be loaded again: the file is not JSON (%s)" % str(e)[:120]})
+        return
     table, msg = table_from_file(content, keys_for_table)
     desc = {"kind": "layout" if is_layout else "link", "dsse": dsse, "compact": compact, "key": signer_k.kind,
             "gpg_signer": getattr(signer_k, "gpg_id", None)}
@@ -407,6 +413,19 @@ def sign_sequence(rng, res, d):
             res.fail("oracle", {"op": "sign_sequence", "ops": ops, "dsse": dsse},
                      {"why": "in-toto-sign --verify status %r for a key that %s" % (st, "signed" if exp == 0 else "did not sign"),
                       "key": k.keyid[:8]})
+    if not is_link:
+        # several keys in one call, in any order (a key without a signature before, between or after keys that signed):
+        # success only if every one of them verifies
+        for _ in range(2):
+            ask = rng.sample(keys, rng.randrange(2, 4))
+            st, _o, _e = cli.run_main("in_toto_sign", ["-f", path, "--verify", "-k"] + [write_pub(k, d) for k in ask])
+            signed = [k.keyid in present for k in ask]
+            verdicts["+".join(k.keyid[:4] for k in ask)] = st
+            res.evaluations += 1
+            if (st == 0) != all(signed):
+                res.fail("oracle", {"op": "sign_sequence", "ops": ops, "dsse": dsse, "verify_with": [k.keyid[:8] for k in ask]},
+                         {"why": "in-toto-sign --verify with keys %r (signed: %r) exited %r: it must succeed only if every given key has a "
+                                 "valid signature" % ([k.keyid[:8] for k in ask], signed, st)})
     res.case({"sign_sequence": ops, "dsse": dsse, "signatures_in_file": [x[:8] for x in file_ids], "verify_status": verdicts},
              True, agreed, sample_cap=1)
     res.count("sign_sequences")
